@@ -387,7 +387,7 @@ func runFcHistory(b *fw.B, cat fcCat, p fcParams, hNo int) {
 	}
 	h.graph = proto.NewProtoArray(anchorParent, anchorRoot, anchorSlot, cp.Epoch, cp.Epoch, h.sink)
 	var err error
-	h.step(fmt.Sprintf("New(anchor=%s parent=%x vals=%d)", refStr(common.NodeRef{Root: anchorRoot, Slot: anchorSlot}), anchorParent[:2], nVals))
+	h.step(fmt.Sprintf("New(anchor=%s parent=%x vals=%d bal=%s)", refStr(common.NodeRef{Root: anchorRoot, Slot: anchorSlot}), anchorParent[:2], nVals, balStr(bal)))
 	if !h.guard(cat, "NewForkChoice", func() {
 		h.fc, err = forkchoice.NewForkChoice(spec, cp, cp, anchorRoot, anchorSlot, h.graph, proto.NewProtoVoteStore(spec), append([]common.Gwei{}, bal...))
 	}) {
@@ -404,6 +404,11 @@ func runFcHistory(b *fw.B, cat fcCat, p fcParams, hNo int) {
 	nOps := 5 + b.Rng.IntN(p.maxOps)
 	lastBlock := anchorRoot
 	forks, gapVotes, lateBlocks, updates := 0, 0, 0, 0
+	// in 2 of 5 histories heads and queries are computed only now and then, so that votes and blocks pile up between two head computations
+	sparseHeads := b.Rng.IntN(5) < 2
+	b.CountIf(sparseHeads, "histories_with_sparse_head_computations")
+	var lastVoter common.ValidatorIndex
+	haveVoter, headSinceVote := false, true
 	for op := 0; op < nOps && !h.dead && !b.Stop(); op++ {
 		alive := h.m.AliveRefs()
 		var knownRoots []common.Root
@@ -494,6 +499,11 @@ func runFcHistory(b *fw.B, cat fcCat, p fcParams, hNo int) {
 			b.Inc("slots_inserted")
 		case r < 74: // ProcessAttestation
 			v := common.ValidatorIndex(b.Rng.IntN(nVals + 2))
+			if haveVoter && b.Rng.IntN(3) == 0 {
+				v = lastVoter // the same validator again, possibly before any head was computed in between
+				b.CountIf(!headSinceVote, "votes_by_the_previous_voter_with_no_head_computed_in_between")
+			}
+			lastVoter, haveVoter, headSinceVote = v, true, false
 			var ref common.NodeRef
 			switch b.Rng.IntN(10) {
 			case 0: // unknown root
@@ -545,7 +555,11 @@ func runFcHistory(b *fw.B, cat fcCat, p fcParams, hNo int) {
 		if h.dead {
 			break
 		}
-		if mutated || op%4 == 0 {
+		if sparseHeads {
+			mutated = mutated && b.Rng.IntN(4) == 0
+		}
+		if mutated || (op%4 == 0 && !sparseHeads) {
+			headSinceVote = true
 			h.headBattery()
 			if cat == catQuery || op%3 == 0 {
 				h.queryBattery(false)
@@ -645,7 +659,7 @@ func (h *fcHarness) doUpdate(nVals int, mkBalances func(int) []common.Gwei, spe 
 		nb = append([]common.Gwei{}, h.m.Balances...)
 	}
 	// Is this history inside the domain where array-prefix pruning equals ancestry pruning?
-	h.step(fmt.Sprintf("UpdateJustified(trigger=%x just=%d:%x fin=%d:%x nbal=%d)", trigger[:2], just.Epoch, just.Root[:2], fin.Epoch, fin.Root[:2], len(nb)))
+	h.step(fmt.Sprintf("UpdateJustified(trigger=%x just=%d:%x fin=%d:%x nbal=%d bal=%s)", trigger[:2], just.Epoch, just.Root[:2], fin.Epoch, fin.Root[:2], len(nb), balStr(nb)))
 	before := len(h.sink.calls)
 	var err error
 	if !h.guard(catUpdate, "UpdateJustified", func() {
@@ -729,4 +743,22 @@ func (h *fcHarness) doUpdate(nVals int, mkBalances func(int) []common.Gwei, spe 
 		}
 	}
 	b.Count("prune_notifications_checked", int64(len(got)))
+}
+
+// balStr renders a balance vector compactly: one character per validator (0 = zero, 1 = 1 ETH, 3 = 32 ETH, ? = other).
+func balStr(b []common.Gwei) string {
+	out := make([]byte, len(b))
+	for i, x := range b {
+		switch x {
+		case 0:
+			out[i] = '0'
+		case 1_000_000_000:
+			out[i] = '1'
+		case 32_000_000_000:
+			out[i] = '3'
+		default:
+			out[i] = '?'
+		}
+	}
+	return string(out)
 }
